@@ -311,6 +311,9 @@ func (c *c13Checker) ensureTwin(w *World, id int) {
 		return
 	}
 	c.tried[id] = true
+	if cfg := uh.Cfg; cfg.Profile != "" || len(cfg.Opts) > 1 || (len(cfg.Opts) == 1 && cfg.Opts[0].N != "report") {
+		return // the pristine twin is parsed by the default parser: only objects of a neutral parser have one
+	}
 	o := w.Cur[id]
 	t, err := url.Parse(o.Href)
 	if err != nil || t == nil || observe(t).Key() != o.Key() {
